@@ -15,7 +15,8 @@ Probes == { Xfer(0, "uusdc", 1000, FwCCTP(0, "MINT_A", "NONE"), <<>>), Xfer(0, "
 Msgs == { PauseProtocol("AUTH", "CCTP"), UnpauseProtocol("AUTH", "CCTP"), PauseCC("AUTH", "CCTP", <<Cp0>>), UnpauseCC("AUTH", "CCTP", <<Cp0>>),
           PauseCC("AUTH", "HYP", <<Cp1>>), UnpauseCC("AUTH", "HYP", <<Cp1>>),
           PauseAction("AUTH", "FEE"), UnpauseAction("AUTH", "FEE"), UpdateParams("AUTH", 2), UpdateParams("AUTH", 0) }
-Setup    == Msgs \cup Probes
+Block    == EnvIn("nextblock", "")
+Setup    == Msgs \cup Probes \cup {Block}
 Discards == { Discarded(x) : x \in Msgs \cup Probes }
 After    == Probes \cup {ReimportIn}
 MCAlphabet == Setup \cup Discards \cup After
